@@ -11,25 +11,26 @@ ToSet(s) == {s[k] : k \in DOMAIN s}
 IsThrow(x) == Has(x, "throw")
 
 \* rows as read back by get(id), for every id the driver knows
-Got(r) == LET present == {x \in ToSet(r.obs.rows) : ~IsThrow(x.row) /\ x.row # <<>>} IN
-          [id \in {x.id : x \in present} |-> (CHOOSE x \in present : x.id = id).row[1]]
+Got(r) == LET present == {x \in ToSet(r.obs.rows) : ~IsThrow(x.row) /\ x.row.v # <<>>} IN
+          [id \in {x.id : x \in present} |-> (CHOOSE x \in present : x.id = id).row.v[1]]
 
 \* per-column getters agree with the row; accessors of a missing row report an error
 ColGetOK(sch, x) ==
     IF IsThrow(x.row) THEN FALSE
-    ELSE IF x.row = <<>> THEN
-        /\ x.exists = FALSE
+    ELSE IF x.row.v = <<>> THEN
+        /\ ~IsThrow(x.exists) /\ x.exists.v = FALSE
         /\ \A c \in DOMAIN x.cols : IsThrow(x.cols[c]) /\ x.cols[c].std
     ELSE
-        /\ x.exists = TRUE
+        /\ ~IsThrow(x.exists) /\ x.exists.v = TRUE
         /\ \A c \in DOMAIN x.cols :
               IF ~HasCol(sch, c) THEN (IsThrow(x.cols[c]) => x.cols[c].std)
-              ELSE IF c \in {"date_created", "date_added"} THEN x.cols[c] = <<x.row[1][c]>>
-              ELSE x.cols[c] = x.row[1][c]
+              ELSE IF IsThrow(x.cols[c]) THEN FALSE
+              ELSE IF c \in {"date_created", "date_added"} THEN x.cols[c].v = <<x.row.v[1][c]>>
+              ELSE x.cols[c].v = x.row.v[1][c]
 ObsOK(r, R, sch) ==
     /\ Has(r, "obs")
     /\ DOMAIN Got(r) = DOMAIN R /\ \A id \in DOMAIN R : Got(r)[id] = R[id]
-    /\ ~IsThrow(r.obs.all) /\ ToSet(r.obs.all) = DOMAIN R /\ Len(r.obs.all) = Cardinality(DOMAIN R)
+    /\ ~IsThrow(r.obs.all) /\ ToSet(r.obs.all.v) = DOMAIN R /\ Len(r.obs.all.v) = Cardinality(DOMAIN R)
     /\ \A x \in ToSet(r.obs.rows) : ColGetOK(sch, x)
 
 Unchanged(r) == Got(r) = rows
@@ -46,7 +47,10 @@ Add(r) ==
 
 Update(r) ==
     \/ /\ r.out = "throw" /\ r.std /\ Unchanged(r) /\ rows' = rows
-    \/ /\ r.out = "ok" /\ r.t \in DOMAIN rows                          \* updating a missing row must not silently succeed
+    \* (C18 names column accessors and remove() as the calls that must report a missing row; update() of a
+    \*  missing row is allowed to do nothing)
+    \/ /\ r.out = "ok" /\ r.t \notin DOMAIN rows /\ Unchanged(r) /\ rows' = rows
+    \/ /\ r.out = "ok" /\ r.t \in DOMAIN rows
        /\ LET G == Got(r) IN
           /\ DOMAIN G = DOMAIN rows
           /\ \A id \in DOMAIN rows \ {r.t} : G[id] = rows[id]
